@@ -57,6 +57,10 @@ func TestProp(t *testing.T) {
 	}
 	rep.Extra("wall_workload_s", time.Since(start).Seconds())
 	rep.Extra("wall_by_stream_s", walls)
+	stats.mu.Lock()
+	rep.Extra("max_concurrent_fills_of_one_group", stats.maxConc)
+	rep.Extra("periodic_fills_begun_after_stop_per_loop_histogram", stats.postStop)
+	stats.mu.Unlock()
 	if !replaying {
 		rep.Floor("okta_cache_hits", 100)
 		rep.Floor("okta_directory_consultations", 100)
